@@ -254,6 +254,51 @@ def _table(ctx, model):
                    if ok else
                    f"the {kind} function {fname} is differentiated without the "
                    f"allowed_nonsmoothness gate {list(allowed)} (or never raises)")
+    # copysign(u, v) = fabs(u) * sign(v): the partial derivative depends on
+    # *which* argument is differentiated -- sign(u)*sign(v) for the first, 0
+    # (almost everywhere) for the second.  Decided by concretising the
+    # argument index.
+    iparam = fn.args.args[0].arg
+    want_by_index = {}
+    for k in (0, 1):
+        vals = set()
+        for ps in summarize(fn, plain=True, assume={
+                "allowed_nonsmoothness": ("const", "discontinuous"),
+                iparam: ("const", k)}):
+            if fname_of(ps) == "copysign" and ps.term == "return":
+                vals.add(ps.retval)
+        want_by_index[k] = vals
+
+    def sign_of(j):
+        return ("call", "sign", (("index", PARS, j),), ())
+
+    def strip(v):
+        # drop the resolved-callee slot of call values
+        if isinstance(v, tuple):
+            if v and v[0] == "call" and len(v) > 4:
+                v = v[:4]
+            return tuple(strip(x) for x in v)
+        return v
+    first = {strip(v) for v in want_by_index[0]}
+    second = {strip(v) for v in want_by_index[1]}
+    ok_first = bool(first) and first <= {
+        ("binop", "Mult", sign_of(0), sign_of(1)),
+        ("binop", "Mult", sign_of(1), sign_of(0))}
+    ok_second = second == {("const", 0)}
+    if not (ok_first and ok_second) and first and first != second and \
+            ("const", 0) not in first:
+        raise AnalysisError(f"{loc}: the rule for copysign distinguishes its "
+                            "arguments with a formula this check cannot read: "
+                            f"{sorted(map(str, first))} / "
+                            f"{sorted(map(str, second))}")
+    ctx.ob("E/table/copysign", ok_first and ok_second, loc,
+           "d/du copysign(u, v) = sign(u)*sign(v), d/dv copysign(u, v) = 0"
+           if ok_first and ok_second else
+           "the rule for math.copysign does not distinguish its two arguments: "
+           f"for the first it gives {sorted(map(str, first))} (the derivative is "
+           "sign(u)*sign(v): differentiate(copysign(x, 1), x) must be 1 for "
+           "x > 0, not 0), for the second "
+           f"{sorted(map(str, second))} (the derivative is 0)")
     # the non-smooth branch returns functions.sign(p): that helper must build
     # copysign(1, p)
     fm, ffn = model.func("pymbolic.functions:sign")
